@@ -86,7 +86,7 @@ proof fn lemma_counted_in_table(mb: Metablock, m: Map<KeyId, PublicKey>, ks: Seq
             }
 //@end
 
-//@extract src/verifylib.rs fn:verify_link_signature_thresholds_step props=C02,C12,C13,C15,C14
+//@extract src/verifylib.rs fn:verify_link_signature_thresholds_step props=C02,C07,C12,C13,C15,C14
 //@contract ret=r
 //@include contracts/thresholds_step.rs
 //@before /let mut metablocks = HashMap::new\(\);/
